@@ -64,7 +64,14 @@ def fam_props(mm):
         # null-admitting types BELOW the top level of a property type (array element, map value)
         {"name": "nullElems", "type": {"kind": "array", "element": {"kind": "or", "items": [STR, NULL]}}},
         {"name": "nullVals", "type": {"kind": "map", "key": STR, "value": {"kind": "or", "items": [ref("Range"), NULL]}}, "optional": True},
+        # an anonymous literal whose OPTIONAL members come first / in the middle (position of a member must not matter to any plugin)
+        {"name": "litOrder", "type": {"kind": "literal", "value": {"properties": [{"name": "optFirst", "type": STR, "optional": True}, {"name": "limit", "type": UINT},
+                                                                                  {"name": "optMid", "type": BOOL, "optional": True}, {"name": "last", "type": STR}]}}},
     ]})
+    # structures that INHERIT anonymous-literal members (extends and mixins): generators that name / cache literal types per declaration
+    # must give the heir the same member types as the declaring structure
+    m["structures"].append({"name": "ZzNewChild", "extends": [ref("ZzNew")], "properties": [{"name": "childOnly", "type": STR, "optional": True}]})
+    m["structures"].append({"name": "ZzNewMixUser", "mixins": [ref("ZzNew")], "properties": [{"name": "userOnly", "type": UINT}]})
     return m
 
 
